@@ -285,3 +285,108 @@ func (v *View) Bytes() []byte {
 	v.ReadAt(b, 0)
 	return b
 }
+
+// ---------------------------------------------------------------- sparse files
+
+// Sparse is a sparse in-memory file (4 KiB pages allocated on first write):
+// region files whose chunks live at very high sector numbers cost only the
+// pages that were actually written. Implements io.ReadWriteSeeker, io.WriterAt
+// and io.ReaderAt.
+type Sparse struct {
+	pages map[int64]*[4096]byte
+	Size  int64
+	Pos   int64
+}
+
+func NewSparse() *Sparse { return &Sparse{pages: map[int64]*[4096]byte{}} }
+
+func (s *Sparse) ReadAt(p []byte, off int64) (int, error) {
+	if off >= s.Size {
+		return 0, io.EOF
+	}
+	n := len(p)
+	if int64(n) > s.Size-off {
+		n = int(s.Size - off)
+	}
+	for done := 0; done < n; {
+		pg, po := (off+int64(done))/4096, int((off+int64(done))%4096)
+		chunk := 4096 - po
+		if chunk > n-done {
+			chunk = n - done
+		}
+		if page := s.pages[pg]; page != nil {
+			copy(p[done:done+chunk], page[po:po+chunk])
+		} else {
+			clear(p[done : done+chunk])
+		}
+		done += chunk
+	}
+	if n < len(p) {
+		return n, io.EOF
+	}
+	return n, nil
+}
+
+func (s *Sparse) WriteAt(p []byte, off int64) (int, error) {
+	for done := 0; done < len(p); {
+		pg, po := (off+int64(done))/4096, int((off+int64(done))%4096)
+		chunk := 4096 - po
+		if chunk > len(p)-done {
+			chunk = len(p) - done
+		}
+		page := s.pages[pg]
+		if page == nil {
+			if allZero(p[done : done+chunk]) {
+				done += chunk
+				continue
+			}
+			page = new([4096]byte)
+			s.pages[pg] = page
+		}
+		copy(page[po:po+chunk], p[done:done+chunk])
+		done += chunk
+	}
+	if e := off + int64(len(p)); e > s.Size {
+		s.Size = e
+	}
+	return len(p), nil
+}
+
+func (s *Sparse) Read(p []byte) (int, error) {
+	n, err := s.ReadAt(p, s.Pos)
+	s.Pos += int64(n)
+	if n > 0 {
+		return n, nil
+	}
+	return n, err
+}
+
+func (s *Sparse) Write(p []byte) (int, error) {
+	n, err := s.WriteAt(p, s.Pos)
+	s.Pos += int64(n)
+	return n, err
+}
+
+func (s *Sparse) Seek(off int64, whence int) (int64, error) {
+	var np int64
+	switch whence {
+	case io.SeekStart:
+		np = off
+	case io.SeekCurrent:
+		np = s.Pos + off
+	case io.SeekEnd:
+		np = s.Size + off
+	}
+	if np < 0 {
+		return s.Pos, errors.New("simdisk: negative position")
+	}
+	s.Pos = np
+	return np, nil
+}
+
+// NoWriterAt hides WriteAt (Region.writeAt has two paths).
+type NoWriterAt struct{ S *Sparse }
+
+func (n NoWriterAt) Read(p []byte) (int, error)         { return n.S.Read(p) }
+func (n NoWriterAt) Write(p []byte) (int, error)        { return n.S.Write(p) }
+func (n NoWriterAt) Seek(o int64, w int) (int64, error) { return n.S.Seek(o, w) }
